@@ -93,6 +93,16 @@ class Run(AppsRun):
         if not self.settle():
             self.count('rounds_not_settled')
             return
+        # 'the same situation': no process is about to exit by itself (a wait_exit program of ANOTHER application that
+        # exits in the middle of the real start changes the loads between the prediction and the later sequence steps)
+        for _ in range(12):
+            if not any(rec.get('death_at') is not None and not rec['dead']
+                       for inst in w.live() for rec in inst.procs.values()):
+                break
+            w.run_for(TICK)
+        else:
+            self.count('rounds_not_settled')
+            return
         asker = rng.choice([i.nick for i in w.live()])
         strategy = rng.choice(self.knobs.get('strategies') or gen.STARTING)
         if mode == 'application':
